@@ -4,13 +4,87 @@ import os
 
 VERIF = os.path.dirname(os.path.dirname(os.path.abspath(__file__)))
 
-# id -> (technique, level text, level note, design ref)
+# id -> (technique, level text, level note, design ref). A property is emitted under `checks` only
+# when it is listed in ACTIVE (its check exists and passes on the unchanged tree); the others go under
+# `not_applicable` with the reason "not built yet".
+T_PROOF = "Lean 4 machine-checked proof about an executable model"
 CLAIMED = {
+    "C01": (T_PROOF + ": Pratt print/parse round trip over the extracted binding-power table, evaluator laws and fuel monotonicity over the evaluator model; correspondence of lexer, parser, resolver and evaluator models with the real pipeline on generated programs",
+            "Theorems (no sorry/axioms) pin precedence/associativity for all expressions, short-circuit and left-to-right evaluation, truthiness, loop unrolling, call/return and concatenation/interpolation laws for all terms, states and fuel; the models are tied to the code by regenerated tables (keywords, binding powers, builtins, type rules) and differential runs of the Lean pipeline against the real interpreter.",
+            "Trusted: Lean kernel, extractors, harness/driver; numbers are an abstract NumOps structure in theorems (the driver instantiates IEEE doubles, validated against Rust each run); std string functions assumed.",
+            "DESIGN.md §5 C01"),
+    "C02": (T_PROOF + ": safety invariant of an abstract-interpretation memory evaluator (handles/regions, oracle-resolved control flow) for every program, oracle and fuel; tie by frame/no-frame differential and hook event traces",
+            "Proof that the (repaired) reclamation discipline never reads a recycled region and that runs with and without reclamation observe the same contents, for all programs and all control-flow oracles; tied to runtime.rs by differential execution with and without a frame arena in the poisoning debug build and by comparing hook-reported memory event traces with the model's.",
+            "Trusted: Lean kernel, harness, hooks; allocation freshness is the C11/C12 models' guarantee; Vec growth and std copying assumed.",
+            "DESIGN.md §5 C02"),
+    "C03": (T_PROOF + ": soundness of the analysis model (reachability, effect classes, summaries, liveness) w.r.t. the evaluator model for any plan contained in the model's plan; correspondence on facts/plan/warnings + plan/no-plan differential",
+            "Theorems that pruned statements never change the run (simulation on live variables), unreachable statements never execute, PureNoTrap expressions neither trap nor have effects; the real plan is checked to be contained in the model's plan on generated programs and the real runtime is run with and without the plan.",
+            "Trusted: Lean kernel, harness; runs ending in fuel/stack exhaustion excluded as the property says.",
+            "DESIGN.md §5 C03"),
+    "C04": (T_PROOF + ": resolver model binds to the nearest enclosing declaration; most-recent-instance invariant makes dynamic id lookup equal lexical lookup on every reachable evaluator state",
+            "Static theorem (binding = nearest enclosing declaration; functions visible throughout their block) and dynamic theorem (the runtime's whole-stack search by id finds the lexically visible instance) over the resolver and evaluator models; both models are tied to the code by differential runs (bindings and outputs).",
+            "Trusted: Lean kernel, harness; pointer-keyed tables abstracted as annotations; the call-before-declaration shape (D-04) is a listed finding and an explicit hypothesis of the partial theorem.",
+            "DESIGN.md §5 C04"),
+    "C05": (T_PROOF + ": frame theorems for index assignment, push/pop/reverse and reads over the evaluator model; correspondence on generated array programs",
+            "For all states, paths and values a mutation through one variable changes exactly that cell; reads change nothing; copies are independent — proved on the evaluator model, which is tied to runtime.rs by differential runs biased to copy → nested write → read-both sequences.",
+            "Trusted: Lean kernel, harness; sharing in the Rust Vec representation is excluded by the tie and by C02, not by the pure model.",
+            "DESIGN.md §5 C05"),
+    "C06": (T_PROOF + ": progress theorem over the evaluator model with explicit panic outcomes; generated panic-site list must be covered; exhaustive sink × type × route product in the tie",
+            "Accepted programs never reach a panic outcome of the evaluator model, whose panic sites are checked against a list regenerated from runtime.rs/builtins; the finite product of operator/condition/index/method sinks × runtime types × dynamic routes is executed completely on the real runtime each run.",
+            "Trusted: Lean kernel, extractor of panic sites, harness worker isolation.",
+            "DESIGN.md §5 C06"),
+    "C07": (T_PROOF + ": lexer/parser totality (fuel adequacy) and span theorems (ordered, in range, on character boundaries) over the front-end models; correspondence on arbitrary UTF-8, truncations and token mutations",
+            "For every UTF-8 text the lexer and parser models terminate, all token/AST/diagnostic/label spans are ordered, in range and on character boundaries; models tied to scanner.rs/parser.rs/resolver.rs by differential runs incl. renderer survival, with worker isolation for aborts.",
+            "Trusted: Lean kernel, extractor of lexical tables, harness; nesting depth within the native stack is C08's subject.",
+            "DESIGN.md §5 C07"),
+    "C08": (T_PROOF + ": guard-coverage theorem over the evaluator's recursion graph (every cycle passes a guarded frame; depth ≤ budget + max guard-free path); measured frame costs and crash-threshold sweep in 8 MiB children",
+            "Partial: the theorem bounds native depth by STACK_BUDGET plus the largest guard-free chain for the evaluator and shows parser/resolver recursion is unguarded; frame sizes are measured, and every recursion shape is run past the budget in debug and release under an 8 MiB stack.",
+            "Trusted: Lean kernel, extractor of guard sites; compiled frame sizes are measured, not proved (labelled partial).",
+            "DESIGN.md §5 C08"),
+    "C09": (T_PROOF + ": checker model vs declarative well-formedness judgement; probed static type table compared with the documented one by decide; correspondence on diagnostics for well-formed programs and injected single-rule violations",
+            "Theorems relate the resolver model's diagnostics to a declarative WF judgement rule by rule; the type table is probed from the real checker each run and the model's diagnostics are compared with the real ones on generated programs with single-rule violations in every context.",
+            "Trusted: Lean kernel, probe/extractors, harness; listed findings (return-type scope, unchecked literal method arguments) are explicit hypotheses of the partial theorem.",
+            "DESIGN.md §5 C09"),
+    "C10": (T_PROOF + ": lexer round trip render/lex for all token sequences and all valid separator assignments; parser depends on token kinds only; redundant parentheses erased (Pratt round trip)",
+            "Any two valid layouts of one token sequence lex alike (proved for all sequences and layouts), parsing depends only on token kinds, and full parenthesisation parses to the same tree; tied to the code by differential runs and by re-layout differentials on the real interpreter.",
+            "Trusted: Lean kernel, extractor of lexical tables, harness.",
+            "DESIGN.md §5 C10"),
+    "C11": (T_PROOF + ": invariant and frame theorems over all arena operation histories (alloc/grow/shrink/reset/decommit/scratch); correspondence with the real Arena through the Allocator API and hooks",
+            "For every history: blocks in bounds, aligned (absolute address), pairwise disjoint since the last reset below them; grow preserves contents; clean failure exactly when the request does not fit; reset reuse — proved on the model, tied to bump.rs by differential histories with shadow ranges and byte patterns.",
+            "Trusted: Lean kernel, harness, hooks; mmap/mprotect/madvise assumed; sizes ≤ isize::MAX and capacity < 2^48 are explicit guards.",
+            "DESIGN.md §5 C11"),
     "C12": ("Lean 4 invariant proof over pool histories + generated size-class tables (decide) + correspondence of the model with the real Pool/PoolSet through hooks",
-            "Machine-checked proof (Lean 4, no sorry/axioms) that every legal alloc/release history of the pool model keeps exclusive ownership and conservation, that size classes fit and are minimal, that the wrapping ownership test is exact and that release finds the slot it came from; the model is tied to pool.rs by tables regenerated from the compiled crate and by differential runs of model and real Pool/PoolSet on generated histories, with an implementation-level shadow oracle for the search.",
+            "Machine-checked proof (Lean 4, no sorry/axioms) that every legal alloc/release history of the pool model keeps exclusive ownership and conservation, that size classes fit and are minimal, that the wrapping ownership test is exact, that release finds the slot and class it came from, that fallback buffers are never recycled and that buffers of different classes never overlap; the model is tied to pool.rs by tables regenerated from the compiled crate and by differential runs of model and real Pool/PoolSet on generated histories, with an implementation-level shadow oracle for the search.",
             "Trusted: Lean kernel, extractor, harness/driver, hooks; releases are of live buffers with the requested size (the code's Safety contract; discharged for the interpreter by C02).",
             "DESIGN.md §5 C12"),
+    "C13": (T_PROOF + ": find = first occurrence through all search tiers incl. the two-way matcher (termination, in-range indexing), replace/split/join/slice/len specifications, UTF-8 self-synchronisation; correspondence incl. enumeration over small alphabets",
+            "For all byte strings the search model returns the first occurrence and terminates, replace/split/join/slice/len meet their specifications and outputs are valid UTF-8; tied to tw.rs/replace.rs/string.rs by differential runs across all tiers.",
+            "Trusted: Lean kernel, harness; memchr modelled by its specification; trim/case mapping/float parsing are Rust std (validated only by the tie).",
+            "DESIGN.md §5 C13"),
+    "C14": (T_PROOF + ": scratch-arena protocol safety for the CLI/playground wiring extracted from the source (decide on the extracted protocol + generic lemma), exit-code decision; CLI vs library vs in-process run sequences",
+            "Partial: the borrow/reset protocol extracted from cmd.rs and wasm/src/lib.rs keeps the arena roles disjoint and restores both arenas, so consecutive runs start from the same state; the real binary is compared with the library pipeline and sequences of runs with single runs.",
+            "Trusted: Lean kernel, extractor of the protocol and of process-global items, harness; that the interpreter reads no addresses is by construction in the model (labelled partial).",
+            "DESIGN.md §5 C14"),
+    "C15": (T_PROOF + ": builder state machine, validate exactness at every cap boundary, last-write-wins env, gate before spawn; correspondence with the real ProcessCommand/validate and an echoing child",
+            "For every builder history the spec holds exactly the configured argv/env/cwd/stdin; validate accepts iff every cap is respected (each boundary exact); denied or invalid commands spawn nothing — proved on the model and compared with the real code incl. real child processes.",
+            "Trusted: Lean kernel, harness; std::process::Command (no shell interpretation) trusted and observed.",
+            "DESIGN.md §5 C15"),
+    "C16": (T_PROOF + ": inductive invariant over all interleavings of a transition-system model of child, pipes, reader threads, overflow flag and polling waiter; real runs under varied timing must land in the allowed outcome set",
+            "Partial: in every terminal state of the model the result is the complete output or the corresponding error and killed children are reaped; OS scheduling and pipe semantics are modelled assumptions; the real runner is exercised under varied timing incl. CPU-starved schedules.",
+            "Trusted: Lean kernel, harness; pipe/kill/wait semantics assumed (labelled partial).",
+            "DESIGN.md §5 C16"),
+    "C17": (T_PROOF + ": for every chunking of every text k calls return the first k lines (induction over the chunk list with the leftover buffer as invariant); real read_line fed through a pipe with controlled chunks",
+            "Theorem over all texts, all chunkings and all call counts for the model of read_line; the real function is driven through a real pipe with controlled chunk boundaries and compared with the model.",
+            "Trusted: Lean kernel, harness; read(2) returns a non-empty prefix of the available bytes (assumed).",
+            "DESIGN.md §5 C17"),
+    "C18": (T_PROOF + ": staged limit check exact at every boundary, first-exceeded-in-stage-order, limit ⇒ no plan and one warning, empty plan ⇒ same run; generated caps table + programs sized around each default cap",
+            "Theorems about the limits model (exactness, stage order, pipeline decision) and run equivalence under an absent plan; counts and decisions compared with the real analysis on random programs with small caps and on generated programs just below/at/above every default cap.",
+            "Trusted: Lean kernel, extractor of DEFAULT_CAPS, harness.",
+            "DESIGN.md §5 C18"),
 }
+
+# Properties whose check is built, passes on the unchanged tree and is claimed.
+ACTIVE = [l.strip() for l in open(os.path.join(VERIF, "active_properties.txt")) if l.strip() and not l.startswith("#")]
 
 NOT_YET = {}
 
@@ -20,7 +94,7 @@ ALL = [f"C{n:02d}" for n in range(1, 19)]
 def main():
     checks = []
     for pid in ALL:
-        if pid not in CLAIMED:
+        if pid not in CLAIMED or pid not in ACTIVE:
             continue
         tech, text, note, ref = CLAIMED[pid]
         checks.append({
@@ -35,7 +109,7 @@ def main():
             "technique": tech,
         })
     na = [{"property_id": pid, "reason": NOT_YET.get(pid, "check not built yet in this round (planned: Lean 4 model + theorems + correspondence, see DESIGN.md §5); not claimed until it exists")}
-          for pid in ALL if pid not in CLAIMED]
+          for pid in ALL if pid not in ACTIVE]
     hooks_commits = [l.strip() for l in open(os.path.join(VERIF, "hooks_commits.txt")) if l.strip()]
     man = {
         "version": 1,
